@@ -767,11 +767,14 @@ class AdapterLookupBase:
 
     def changed(self, ignored=None):
         super().changed(None)
-        for r in self._required.keys():
+        # Detach the table before walking it: a lookup running in another
+        # thread may call this method, or subscribe to more specifications,
+        # at the same time.
+        required, self._required = self._required, {}
+        for r in required:
             r = r()
             if r is not None:
                 r.unsubscribe(self)
-        self._required.clear()
 
     # Extendors
     # ---------
